@@ -190,6 +190,8 @@ func judgeURL(w *core.W, c *urlCase) {
 		}
 		func() {
 			defer func() { pan = recover() }()
+			_ = leaf.URLPath(vals, !with) // an earlier build with the other setting must not influence this one
+			_ = leaf.URLPath(map[string]string{"x": "earlier"}, with)
 			got = leaf.URLPath(vals, with)
 		}()
 	default:
@@ -207,6 +209,12 @@ func judgeURL(w *core.W, c *urlCase) {
 		}
 		func() {
 			defer func() { pan = recover() }()
+			// earlier builds of the same named route with the other withOptional setting / other values
+			if with {
+				_ = f.URLPath("n", "x", "earlier")
+			} else {
+				_ = f.URLPath("n", "x", "earlier", "withOptional", "true")
+			}
 			if c.Entry == "router" {
 				got = f.URLPath("n", pairs...)
 			} else {
